@@ -770,9 +770,31 @@ PINNED = [
 # an assertion in type_check._type_check_builtin_reference.
 
 
+def testdata_modules():
+    """The repository's own .emb files (and corpus/C15/*.emb), keyed as they import each other."""
+    import glob
+    import os
+    files = {}
+    for p in sorted(glob.glob(os.path.join(common.REPO, "testdata", "**", "*.emb"), recursive=True)):
+        with open(p) as f:
+            files[os.path.relpath(p, common.REPO)] = f.read()
+    mains = sorted(files)
+    corpus = {}
+    for p in sorted(glob.glob(os.path.join(common.VERIF, "corpus", PROP, "*.emb"))):
+        with open(p) as f:
+            corpus[os.path.basename(p)] = f.read()
+    return files, mains, corpus
+
+
 def real_modules(chk, tier, model_ok, stats):
     r = common.rng("C15-emb")
     batch = []
+    files, mains, corpus = testdata_modules()
+    for main in mains:
+        # only the files this one (transitively) imports are handed over
+        module_case(chk, files, main, {}, None, "testdata", batch, stats)
+    for name, text in corpus.items():
+        module_case(chk, {"m.emb": text}, "m.emb", {}, None, "corpus", batch, stats)
     for tag, files in PINNED:
         main = "a.emb" if "a.emb" in files else "m.emb"
         module_case(chk, files, main, {}, None, "pinned", batch, stats)
